@@ -134,8 +134,8 @@ pub fn gen_string_feature(src: &mut Src, p: &DocParams, out: &mut Vec<u8>) {
             out.push(e);
         }
         3 => {
-            // BMP \u escape, not a surrogate
-            let mut v = src.u16() as u32;
+            // BMP \u escape, not a surrogate; often a boundary of the UTF-8 encoding lengths / of the surrogate gap
+            let mut v = if src.chance(90) { *src.pick(&[0x0u32, 0x1f, 0x20, 0x22, 0x5c, 0x7f, 0x80, 0x7ff, 0x800, 0xfff, 0x1000, 0xd7ff, 0xe000, 0xfffd, 0xfffe, 0xffff]) } else { src.u16() as u32 };
             if (0xD800..0xE000).contains(&v) {
                 v -= 0x800;
             }
@@ -144,7 +144,7 @@ pub fn gen_string_feature(src: &mut Src, p: &DocParams, out: &mut Vec<u8>) {
         }
         4 => {
             // surrogate pair
-            let cp = 0x10000 + (src.u32() % 0x100000);
+            let cp = if src.chance(60) { *src.pick(&[0x10000u32, 0x10001, 0x1ffff, 0x20000, 0xfffff, 0x100000, 0x10fffe, 0x10ffff]) } else { 0x10000 + (src.u32() % 0x100000) };
             let h = 0xD800 + ((cp - 0x10000) >> 10);
             let l = 0xDC00 + ((cp - 0x10000) & 0x3FF);
             let up = src.bool();
